@@ -40,7 +40,7 @@ type sets struct {
 func fieldSets(thorough bool) sets {
 	s := sets{
 		// "#012": the printable characters a client can type that look like rsyslog's escape of a line feed
-		users: []string{"a", "root", "a.b-c_d@e$", "ユーザー", strings.Repeat("x", 32), "dep#012loy", "adm\xff\xfein", `CORP\\jd\303\253`}, // (two bytes that are not UTF-8, e.g. a Latin-1 name; the text sshd's vis(3) encoding produces for CORP\jdë)
+		users: []string{"a", "root", "a.b-c_d@e$", "ユーザー", strings.Repeat("x", 32), "dep#012loy", "adm\xff\xfein", `CORP\\jd\303\253`, "adm\u202enimda\u200f"}, // (the last: bidirectional control characters - a "Trojan source" name; two bytes that are not UTF-8, e.g. a Latin-1 name; the text sshd's vis(3) encoding produces for CORP\jdë)
 		// addresses are recorded as printed: the upper-case, zero-padded, uncompressed and v4-mapped-hex
 		// spellings parse as IP addresses but are not what a canonicalising formatter would print
 		addrs:    []string{"1.2.3.4", "::1", "fe80::1%eth0", "2001:db8::ffff:1.2.3.4", "host.example.com", "FE80::0001", "0:0:0:0:0:0:0:1", "::ffff:a00:1"},
@@ -57,7 +57,7 @@ func fieldSets(thorough bool) sets {
 		hosts:    []string{"1.2.3.4", "host.example.com", "fe80::1%eth0"},
 	}
 	if !thorough {
-		s.users = []string{"a", "a.b-c_d@e$", "ユーザー", "dep#012loy", "adm\xff\xfein", `CORP\\jd\303\253`}
+		s.users = []string{"a", "a.b-c_d@e$", "ユーザー", "dep#012loy", "adm\xff\xfein", `CORP\\jd\303\253`, "adm\u202enimda\u200f"}
 		s.addrs = []string{"1.2.3.4", "fe80::1%eth0", "host.example.com", "FE80::0001"}
 		s.ports = []string{"0", "65535"}
 		s.keytypes = []string{"RSA", "ED25519", "ECDSA-SK", "XMSS"}
